@@ -53,7 +53,16 @@ type negScen struct {
 	// success replies, as a real (or hostile) server would: does a confused client leak credentials? (C04)
 	Lenient bool `json:"lenient,omitempty"`
 	Secret string    `json:"secret,omitempty"`
+	// FailCond: the condition inside <failed/> for the reply variant "failedcond"
+	FailCond string `json:"failcond,omitempty"`
 }
+
+// every condition the library's <failed/> parser knows, plus the XEP-0198 ones and one it does not know
+var negFailConds = []string{"item-not-found", "feature-not-implemented", "internal-server-error", "resource-constraint", "system-shutdown",
+	"connection-timeout", "unexpected-request", "bad-format", "bad-namespace-prefix", "conflict", "host-gone", "host-unknown",
+	"improper-addressing", "invalid-from", "invalid-id", "invalid-namespace", "invalid-xml", "not-authorized", "not-well-formed",
+	"policy-violation", "remote-connection-failed", "restricted-xml", "see-other-host", "undefined-condition", "unsupported-encoding",
+	"unsupported-stanza-type", "unsupported-version", "xml-not-well-formed", "service-unavailable"}
 
 func bytesOf(s string) []int {
 	out := make([]int, 0, len(s))
@@ -237,7 +246,7 @@ func (l wsLink) Expect(d time.Duration) (*srv.Elem, error) {
 func (l wsLink) StartTLS(tls.Certificate, time.Duration) error { return errors.New("no STARTTLS over WebSocket") }
 func (l wsLink) RestartStream()                                {}
 
-func negServe(w *tr.Writer, conn negLink, sc negConn, n int, opDone <-chan struct{}, sessUp *int32, handled *int32, lenient bool) {
+func negServe(w *tr.Writer, conn negLink, sc negConn, n int, opDone <-chan struct{}, sessUp *int32, handled *int32, lenient bool, failCond string) {
 	authed := false
 	var pending *srv.Elem // an element read but not yet answered
 	pkiv := srv.GetPKI()
@@ -373,6 +382,12 @@ func negServe(w *tr.Writer, conn negLink, sc negConn, n int, opDone <-chan struc
 				out = "<resumed xmlns='" + srv.NSSM + "' previd='some-other-id' h='0'/>"
 			case "failed":
 				out = "<failed xmlns='" + srv.NSSM + "'/>"
+			case "failedcond":
+				cnd := failCond
+				if cnd == "" {
+					cnd = "internal-server-error"
+				}
+				out = "<failed xmlns='" + srv.NSSM + "' h='0'><" + cnd + " xmlns='urn:ietf:params:xml:ns:xmpp-stanzas'/><text xmlns='urn:ietf:params:xml:ns:xmpp-stanzas'>try later</text></failed>"
 			case "faileditem":
 				out = "<failed xmlns='" + srv.NSSM + "' h='0'><item-not-found xmlns='urn:ietf:params:xml:ns:xmpp-stanzas'/></failed>"
 			case "other":
@@ -680,7 +695,7 @@ func negRunOne(w *tr.Writer, tid int, raw json.RawMessage, c *common) error {
 			}
 			sconn = conn
 			close(accepted)
-			negServe(w, conn, cs, n, opDone, &sessUp, &handled, sc.Lenient)
+			negServe(w, conn, cs, n, opDone, &sessUp, &handled, sc.Lenient, sc.FailCond)
 		}()
 		discBefore := atomic.LoadInt32(&discCount)
 		exitBefore := run.get("recv.exit")
@@ -782,6 +797,9 @@ func runNeg(args []string) error {
 			sc.Conns[ci].Nst = (tid + ci) % 3
 		}
 		sc.Lenient = sc.Lenient || *lenient
+		if sc.FailCond == "" && strings.Contains(string(ln), `"failedcond"`) {
+			sc.FailCond = negFailConds[tid%len(negFailConds)]
+		}
 		if *creds {
 			sc.User = users[rng.Intn(len(users))]
 			sc.Secret = secrets[rng.Intn(len(secrets))]
